@@ -21,6 +21,7 @@ type Solver struct {
 	Unknown  int
 	Time     time.Duration
 	log      io.Writer
+	isCVC5   bool
 }
 
 func NewSolver(bin string, args ...string) (*Solver, error) {
@@ -38,11 +39,21 @@ func NewSolver(bin string, args ...string) (*Solver, error) {
 		return nil, err
 	}
 	s := &Solver{cmd: cmd, in: in, out: bufio.NewReader(outp), declared: map[int]bool{}}
+	s.isCVC5 = strings.Contains(bin, "cvc5")
+	s.preamble()
+	return s, nil
+}
+
+func (s *Solver) preamble() {
 	s.send("(set-option :print-success false)")
 	s.send("(set-option :produce-models true)")
 	s.send("(set-option :global-declarations true)")
-	s.send("(set-option :timeout 5000)")
-	return s, nil
+	if s.isCVC5 {
+		s.send("(set-option :tlimit-per 5000)")
+		s.send("(set-logic QF_BV)")
+	} else {
+		s.send("(set-option :timeout 5000)")
+	}
 }
 
 func (s *Solver) send(line string) {
@@ -70,10 +81,7 @@ func (s *Solver) declare(t *Term) {
 // so we always declare before any push by tracking and re-declaring after reset.
 func (s *Solver) Reset() {
 	s.send("(reset)")
-	s.send("(set-option :print-success false)")
-	s.send("(set-option :produce-models true)")
-	s.send("(set-option :global-declarations true)")
-	s.send("(set-option :timeout 5000)")
+	s.preamble()
 	s.declared = map[int]bool{}
 	s.depth = 0
 }
